@@ -704,6 +704,32 @@ def adversarial_documents(rng, desc, n):
             text = "{ ...A } fragment A on %s { ...B } fragment B on %s { ...A %s%s%s }" % (
                 root, root, any_f["name"], req_args(any_f), sub(any_f))
             out.append(("fragment-cycle", text, {}))
+        elif k == 10 and rng.random() < 0.5:
+            # an ACYCLIC entry chain (length 1..3) leading INTO a cycle (length 2..3, sometimes 1): Entry -> A -> B -> A.
+            # Every definition order; the chain is spread from the operation, sometimes also from another acyclic fragment.
+            pool = ["Entry", "Mid", "Pre", "A", "B", "C", "Zz", "a0"]
+            rng.shuffle(pool)
+            nchain, ncyc = rng.randint(1, 3), rng.choice([1, 2, 2, 3, 3])
+            chain, cyc = pool[:nchain], pool[nchain:nchain + ncyc]
+            inner = "%s%s%s" % (any_f["name"], req_args(any_f), sub(any_f))
+            defs = []
+            for i, n in enumerate(chain):
+                nxt = chain[i + 1] if i + 1 < len(chain) else cyc[0]
+                defs.append("fragment %s on %s { %s...%s }" % (n, root, (inner + " ") if rng.random() < 0.5 else "", nxt))
+            for i, n in enumerate(cyc):
+                nxt = cyc[(i + 1) % len(cyc)]
+                defs.append("fragment %s on %s { ...%s%s }" % (n, root, nxt, (" " + inner) if rng.random() < 0.5 else ""))
+            spreads = ["..." + chain[0]]
+            if rng.random() < 0.4:
+                defs.append("fragment Side on %s { ...%s }" % (root, rng.choice(chain)))
+                spreads.append("...Side")
+            order = rng.choice(["as-is", "reversed", "shuffled"])
+            if order == "reversed":
+                defs.reverse()
+            elif order == "shuffled":
+                rng.shuffle(defs)
+            rng.shuffle(spreads)
+            out.append(("fragment-cycle-behind-entry", "{ %s } %s" % (" ".join(spreads), " ".join(defs)), {}))
         elif k == 10:
             # a fragment cycle NEXT TO an acyclic fragment, names in every alphabetical arrangement (memo tables keyed
             # by sorted name pairs), the cycle of length 1..3, the acyclic fragment also spread inside the cycle
